@@ -123,6 +123,11 @@ def oracle_c15(r):
     total = r["total"]
     if "panic_plain" in r:
         out.append((cls_t, "plain iteration panicked: " + r["panic_plain"]))
+    if "panic_wrapper" in r:
+        out.append((None, "the mode-agnostic GradualDifficulty panicked: " + r["panic_wrapper"]))
+    if r.get("wrapper_eq") is False:
+        out.append((None, f"the mode-agnostic GradualDifficulty (next / nth / len / size_hint) differs from the mode's own "
+                          f"calculator on the ops {r.get('wrapper_ops')}"))
     if "vals" in r:
         n = len(r["vals"])
         for i, l in enumerate(r["lens"]):
